@@ -30,7 +30,7 @@ import (
 func init() {
 	h.Register(&h.Prop{
 		ID:         "C04",
-		Rule:       "lib: n honest DistKeyGenerators, schedule of ProcessDeal/ProcessResponse deliveries: for n=3 every permutation of the 6 messages a recipient gets (2 deals + 4 responses), for each of the 3 recipients (all 2160 in thorough - this is the exhaustive part -, sampled in quick; deliveries to different recipients commute, so per-recipient orders are the quotient), plus random global schedules n<=7 with re-deliveries and not-yet-produced messages; non-trivial = not the canonical deals-then-responses order; distinct = distinct case line",
+		Rule:       "lib: n honest DistKeyGenerators, schedule of ProcessDeal/ProcessResponse deliveries: for n=3 every permutation of the 6 messages a recipient gets (2 deals + 4 responses), for each of the 3 recipients (all 2160 in thorough - this is the exhaustive part -, sampled in quick; deliveries to different recipients commute, so per-recipient orders are the quotient), plus random global schedules n<=7 with re-deliveries and not-yet-produced messages; mem: the real session layer and stages (dkgnet.Sim), for n=3 every order of the 7 events of a recipient (start, 2 keys, 2 deals, 2 Responses messages), for each of the 3 recipients (all 3 x 5040 in thorough - exhaustive too -, 1/120 in quick), plus random global schedules n<=7; net: the real NewPDKG/Loop/Grouping over the in-memory network with drop/loseack/delay policies and start skews (6 scenarios in quick, 11 in thorough: a SAMPLE, never exhaustive); `exhaustive` in the evidence of a thorough run refers to the two per-recipient order spaces of lib and mem only; non-trivial = not the canonical deals-then-responses order; distinct = distinct case line",
 		Gen:        gen,
 		Exec:       exec,
 		Exhaustive: func(tier string) bool { return tier == "thorough" },
@@ -593,12 +593,7 @@ func gen(tier string, rng *h.Rng, emit func(string)) {
 	for i := 0; i < 3; i++ {
 		in := incomingMem(3, i)
 		permutations(len(in), func(p []int) {
-			if thorough && i != 0 && rng.Intn(10) != 0 {
-				return
-			}
-			if thorough && i == 0 && rng.Intn(2) != 0 { // the two seeds of a thorough run cover ~3/4 of the 5040 orders
-				return
-			}
+			// thorough: ALL 5040 orders for each of the three recipients (review C round 5, finding 7)
 			if !thorough && rng.Intn(120) != 0 {
 				return
 			}
